@@ -22,6 +22,7 @@ type Clause struct {
 	Fn    string // name of the generated clause function
 	Args  []ArgDesc
 	Src   string // file:line
+	Broken string // non-empty: the clause no longer type-checks against the code (message)
 }
 
 type ArgDesc struct {
@@ -71,6 +72,11 @@ type Contract struct {
 	Appends   []string // ghost logs that receive exactly one entry per call (trusted primitives only)
 }
 
+type Immutable struct {
+	Path    string
+	Writers []string
+}
+
 type Guarded struct {
 	Fields []string // "IPPool.freePool"
 	Lock   string   // "IPPool.mu"
@@ -88,6 +94,7 @@ type ContractSet struct {
 	errs     []string
 	consts   map[string]bool
 	typeInvs map[string][]*Clause
+	immutables []Immutable
 }
 
 var labelRe = regexp.MustCompile(`^([A-Za-z][A-Za-z0-9_.\-@]*):\s+`)
@@ -133,6 +140,16 @@ func (cs *ContractSet) parseContractText(file string, lines []string, lineNos []
 			a, p := splitWord(rest)
 			p = strings.Trim(strings.TrimSpace(p), `"`)
 			cs.imports[a] = p
+		case "immutable":
+			// immutable T.path writers F1, F2
+			parts := strings.SplitN(rest, " writers ", 2)
+			im := Immutable{Path: strings.TrimSpace(parts[0])}
+			if len(parts) == 2 {
+				for _, w := range strings.Split(parts[1], ",") {
+					im.Writers = append(im.Writers, strings.TrimSpace(w))
+				}
+			}
+			cs.immutables = append(cs.immutables, im)
 		case "constglobal":
 			cs.consts[strings.TrimSpace(rest)] = true
 		case "mode", "logical", "requires", "ensures", "loop", "inline", "noinline", "trusted", "pure", "modifies", "noreturn", "assume", "call", "mayblock", "nonblocking", "unchecked", "appends", "lemmas", "freshwrites", "deadreturns":
@@ -599,4 +616,15 @@ func sortedContractKeys(m map[string]*Contract) []string {
 	}
 	sort.Strings(ks)
 	return ks
+}
+
+func (c *Contract) brokenClause() *Clause {
+	for _, l := range [][]*Clause{c.Requires, c.Ensures, c.Invs} {
+		for _, cl := range l {
+			if cl.Broken != "" {
+				return cl
+			}
+		}
+	}
+	return nil
 }
